@@ -10,8 +10,10 @@
     operation that returned before another was called comes first), whose sequential run in the
     model gives every subscriber exactly the recorded trace; the order is then validated with the
     very predicate of the meta-theorem, `Lin.isLinearization (subjectObj k)`.
-  * `uu`: not `ok`, but explained when the real-time order between two `Unsubscribe` calls is
-    ignored — the known class "Unsubscribe does not take s.mu" (`C10.unsubscribe_not_atomic_witness`).
+  * `uu`: multicast kinds; not `ok`, but explained by the micro-step reading `Kind.micro` in which an
+    `Unsubscribe` of another goroutine (it takes no subject lock) runs between two iterations of
+    the broadcast loop(s) of the operation in progress — the known class "Unsubscribe is not
+    atomic with a broadcast in progress" (`C10.unsubscribe_not_atomic_witness`, `C10.micro_agrees`).
   * `micro`: unicast only; not `ok`, but explained by the two-step reading of Next/Error/Complete
     (`unicastLocked` under the mutex, `unicastDeliver` later, both inside the call's interval) —
     the known class "unicast delivers outside the lock" (`C10.unicast_lost_value_witness`).
@@ -53,21 +55,49 @@ def finalOk (s : State Int) (obs : List (List String)) : Bool :=
   (obs.zipIdx).all (fun p => strs (s.sub p.2).got == p.1)
 
 /-- `a` may come next: nothing still to be placed had returned before `a` was called -/
-def minimal (relaxUU : Bool) (a : H) (rest : List H) : Bool :=
-  rest.all (fun b => b.idx == a.idx || !(b.ret < a.call) || (relaxUU && a.isUnsub && b.isUnsub))
+def minimal (a : H) (rest : List H) : Bool :=
+  rest.all (fun b => b.idx == a.idx || !(b.ret < a.call))
 
 /-- depth-first search for an order; returns the positions in that order -/
-def search (k : Kind Int) (relaxUU : Bool) (obs : List (List String)) : Nat → State Int → List H → Option (List Nat)
+def search (k : Kind Int) (obs : List (List String)) : Nat → State Int → List H → Option (List Nat)
   | 0, s, rest => if rest.isEmpty && finalOk s obs then some [] else none
   | fuel + 1, s, rest =>
     if rest.isEmpty then (if finalOk s obs then some [] else none)
     else rest.firstM (fun a =>
-      if minimal relaxUU a rest then
+      if minimal a rest then
         let s' := k.step s a.op
         if prefixOk s' obs then
-          (search k relaxUU obs fuel s' (rest.filter (fun b => b.idx != a.idx))).map (a.idx :: ·)
+          (search k obs fuel s' (rest.filter (fun b => b.idx != a.idx))).map (a.idx :: ·)
         else none
       else none)
+
+/-- the operation in progress of the multicast micro-step search -/
+structure Cur where
+  a : H
+  visits : List (State Int → State Int)
+  post : State Int → State Int
+
+/-- multicast, micro-steps: operations under `s.mu` run one at a time, each as `Kind.micro` says;
+    an `Unsubscribe` (no subject lock) may run between two visits of the operation in progress,
+    provided real time allows it (it was not called after that operation had returned) -/
+def searchMM (k : Kind Int) (obs : List (List String)) : Nat → State Int → List H → Option Cur → Bool
+  | 0, s, rest, cur => rest.isEmpty && cur.isNone && finalOk s obs
+  | fuel + 1, s, rest, none =>
+    if rest.isEmpty then finalOk s obs
+    else rest.any (fun a =>
+      minimal a rest &&
+        (match k.micro s a.op with
+         | some m => prefixOk m.pre obs &&
+             searchMM k obs fuel m.pre (rest.filter (fun b => b.idx != a.idx)) (some ⟨a, m.visits, m.post⟩)
+         | none => prefixOk (k.step s a.op) obs &&
+             searchMM k obs fuel (k.step s a.op) (rest.filter (fun b => b.idx != a.idx)) none))
+  | fuel + 1, s, rest, some cu =>
+    (match cu.visits with
+     | [] => prefixOk (cu.post s) obs && searchMM k obs fuel (cu.post s) rest none
+     | f :: fs => prefixOk (f s) obs && searchMM k obs fuel (f s) rest (some { cu with visits := fs }))
+    || rest.any (fun u =>
+      u.isUnsub && minimal u rest && !(cu.a.ret < u.call) && prefixOk (k.step s u.op) obs &&
+        searchMM k obs fuel (k.step s u.op) (rest.filter (fun b => b.idx != u.idx)) (some cu))
 
 /-- unicast, micro-steps: an operation is started (its part under the mutex) and, if that left a
     pending delivery, finished later; an operation may start only when every operation that had
@@ -82,7 +112,7 @@ def searchMicro (cap : Option Nat) (obs : List (List String)) :
         let s' := unicastDeliver s p.2
         prefixOk s' obs && searchMicro cap obs fuel s' rest (pend.filter (fun q => q.1.idx != p.1.idx)))
       || rest.any (fun a =>
-        minimal false a rest && pend.all (fun q => !(q.1.ret < a.call)) &&
+        minimal a rest && pend.all (fun q => !(q.1.ret < a.call)) &&
           (let r := unicastLocked cap s a.op
            prefixOk r.1 obs &&
              searchMicro cap obs fuel r.1 (rest.filter (fun b => b.idx != a.idx))
@@ -92,18 +122,15 @@ def toHOps (h : List H) : List (Lin.HOp (Op Int) Unit) :=
   h.map (fun a => { op := a.op, call := a.call, ret := some (a.ret, ()) })
 
 def verdict (k : Kind Int) (h : List H) (obs : List (List String)) : String :=
-  match search k false obs h.length k.init h with
+  match search k obs h.length k.init h with
   | some lin =>
     -- validation of the witness with the definition used by the meta-theorem
     if Lin.isLinearization (subjectObj k) (toHOps h) lin && finalOk (Lin.finalState (subjectObj k) (toHOps h) lin) obs
     then "ok" else "bad-witness"
   | none =>
-    match search k true obs h.length k.init h with
-    | some _ => "uu"
-    | none =>
-      match k with
-      | .unicast cap => if searchMicro cap obs (2 * h.length) k.init h [] then "micro" else "none"
-      | _ => "none"
+    match k with
+    | .unicast cap => if searchMicro cap obs (2 * h.length) k.init h [] then "micro" else "none"
+    | _ => if searchMM k obs (16 * h.length + 16) k.init h none then "uu" else "none"
 
 def run (c : Case) : String :=
   match Subject.parseKind (c.getD "op" "?") (parseInts (c.getD "p" "-")), parseHist (c.getD "hist" "-") with
